@@ -78,6 +78,12 @@ def run(ctx):
                 any(s[0] == 'upvar' and s[1].startswith('client') for s in sources(an, sq[0].term.args[0]))
             ctx.ob('R16.1', 'exactly the method\'s SQL is sent with simple_query on the recycled connection', oks, ctx.where(rec, sws[0].term.line), '%d queries' % len(sq), construct='recycle:some-arm')
             if sq:
+                # whenever the method names a query - whatever its text: Verified's check IS the empty query - it is sent: no way
+                # from the Some arm to a successful return around the simple_query call
+                esc_ = an.reach([arms['Some']], ('normal',), avoid=[sq[0].idx, arms['None']])
+                around = [bb for bb, cls, det in an.ret_assignments() if cls == 'ok' and bb in esc_]
+                ctx.ob('R16.1', 'a method with a check never accepts the client without issuing it', not around, ctx.where(rec, sws[0].term.line),
+                       'a path from `query() == Some(..)` reaches Ok(()) without simple_query (an "empty statement" shortcut turns Verified into Fast)' if around else '', construct='recycle:some-arm-bypass')
                 poll = [blk for blk in rec.blocks if blk.term.kind == 'call' and blk.term.rcallee and blk.term.rcallee.endswith('simple_query::{closure#0}')]
                 ok_e, fail_e = success_edges(an)
                 if poll:
@@ -214,9 +220,32 @@ def run(ctx):
             if t.kind == 'call' and not blk.cleanup and t.args and any('atomic' in n and n.split('::')[-1] in ('fetch_add', 'fetch_sub', 'store', 'swap') for n in t.callee_names()):
                 if any(s[0] == 'field' and s[1] == SC + '.size' for s in sources(ban, t.args[0])):
                     ups.append((b, blk, [n for n in t.callee_names() if 'atomic' in n][0].split('::')[-1], ban.resolve_operand(t.args[1])))
-    got = sorted((b.name, op, amt) for b, blk, op, amt in ups)
+    # two exact ways of keeping `size` = number of keys: count the changes (+1 on a fresh insert, -1 on a successful remove, 0 on
+    # clear) or re-derive it as `map.len()` after the last change of a critical section
+    def is_len_store(b, blk, op):
+        if op != 'store':
+            return False
+        ban_ = prog.an(b)
+        src = sources(ban_, blk.term.args[1], deep=True)
+        if not any(x[0] == 'call' and x[1].startswith('std::collections::HashMap::') and x[1].endswith('::len') for x in src):
+            return False
+        if any(x[0] in ('bin', 'const') for x in sources(ban_, blk.term.args[1])):
+            return False
+        # no change of the map after the store in this function
+        after = ban_.reach_after(blk.idx, ('normal',))
+        later = [x for x in after if b.blocks[x].term.kind == 'call' and not b.blocks[x].cleanup and
+                 any(n.startswith('std::collections::HashMap::') and n.split('::')[-1] in ('insert', 'remove', 'clear', 'retain', 'drain', 'entry', 'extend', 'remove_entry') for n in b.blocks[x].term.callee_names())]
+        return not later
+    len_stores = {(b.path, blk.idx) for b, blk, op, amt in ups if is_len_store(b, blk, op)}
+    got = sorted((b.name, op, amt if (b.path, blk.idx) not in len_stores else 'len(map)') for b, blk, op, amt in ups)
     exp = sorted([(SC + '::insert', 'fetch_add', '1_usize'), (SC + '::remove', 'fetch_sub', '1_usize'), (SC + '::clear', 'store', '0_usize')])
-    ctx.ob('R16.4', 'size is updated only by insert (+1), remove (-1) and clear (0)', got == exp, '', 'found %s' % got, construct='size-inventory', sites=[str(x) for x in got])
+    mutators = sorted({b.name for b in c.bodies for blk in b.blocks if blk.term.kind == 'call' and not blk.cleanup and blk.term.args and
+                       any(n.startswith('std::collections::HashMap::') and n.split('::')[-1] in ('insert', 'remove', 'clear', 'retain', 'drain', 'extend', 'remove_entry') for n in blk.term.callee_names()) and
+                       any(s_[0] == 'field' and s_[1] == SC + '.map' for s_ in sources(prog.an(b), blk.term.args[0], deep=True))})
+    by_len = sorted({b.name for b, blk, op, amt in ups if (b.path, blk.idx) in len_stores})
+    ok_inv = got == exp or (len(len_stores) == len(ups) and by_len == mutators)
+    ctx.ob('R16.4', 'size is updated only by insert (+1), remove (-1) and clear (0) - or re-derived as map.len() by every function that changes the map', ok_inv, '',
+           'found %s; functions changing the map %s' % (got, mutators), construct='size-inventory', sites=[str(x) for x in got])
     for b, blk, op, amt in ups:
         ban = prog.an(b)
         wg = [i for i, l in enumerate(b.locals) if adt_of(l['ty']) == 'std::sync::RwLockWriteGuard']
@@ -237,7 +266,7 @@ def run(ctx):
                             arms = dict(sw_.term.switch_arms())
                             okc = blk.idx in ban.reach([arms['true']], ('normal',), avoid=[arms['false']]) and blk.idx not in ban.reach([arms['false']], ('normal',), avoid=[arms['true']])
             ctx.ob('R16.4', 'size changes only when the map really gained / lost a key', okc, ctx.where(b, blk.term.line), '', construct='size-cond:' + b.name)
-        if op == 'store':
+        if op == 'store' and (b.path, blk.idx) not in len_stores:
             cl = [x for x in b.blocks if x.term.kind == 'call' and not x.cleanup and any(n.startswith('std::collections::HashMap::') and n.endswith('::clear') for n in x.term.callee_names())]
             ctx.ob('R16.4', 'size reset together with clearing the map', len(cl) == 1, ctx.where(b, blk.term.line), '', construct='size-clear')
     szf = B(SC + '::size')
@@ -308,7 +337,8 @@ def run(ctx):
             cb = rcl[0]
             ctx.saw(cb)
             can = prog.an(cb)
-            pe = [blk for blk in cb.blocks if blk.term.kind == 'call' and any(n.endswith('Weak::ptr_eq') for n in blk.term.callee_names())]
+            # identity of the allocation: Weak::ptr_eq, or the raw addresses compared with ptr::eq
+            pe = [blk for blk in cb.blocks if blk.term.kind == 'call' and any(n.endswith('Weak::ptr_eq') or strip_generics(n) in ('std::ptr::eq', 'core::ptr::eq') for n in blk.term.callee_names())]
             if len(pe) == 1:
                 # returns NOT ptr_eq
                 rsrc = set()
@@ -324,7 +354,7 @@ def run(ctx):
                     csrc = set()
                     for o_ in caps[0].rv.ops:
                         csrc |= sources(dan, o_, deep=True)
-                    okarg = any(x[0] == 'field' and x[1].endswith('ClientWrapper.statement_cache') for x in csrc) and any(x[0] == 'call' and x[1].endswith('Arc::downgrade') for x in csrc)
+                    okarg = any(x[0] == 'field' and x[1].endswith('ClientWrapper.statement_cache') for x in csrc) and any(x[0] == 'call' and (x[1].endswith('Arc::downgrade') or x[1].endswith('Arc::as_ptr')) for x in csrc)
     ctx.ob('R16.6', 'the registry drops exactly the pointer-equal entries', okr, ctx.where(dt), '', construct='registry:detach')
     ctx.ob('R16.6', 'Manager::detach forwards the object\'s cache to the registry', okarg, ctx.where(dt), '', construct='detach:forward-arg')
     for fn, inner in (('clear', SC + '::clear'), ('remove', SC + '::remove')):
@@ -333,8 +363,20 @@ def run(ctx):
         its = [blk for blk in b.blocks if blk.term.kind == 'call' and not blk.cleanup and any(n.endswith('Iterator::next') for n in blk.term.callee_names())]
         ups_ = [blk for blk in b.blocks if blk.term.kind == 'call' and not blk.cleanup and any(n.endswith('Weak::upgrade') for n in blk.term.callee_names())]
         inn = [blk for blk in b.blocks if blk.term.kind == 'call' and not blk.cleanup and blk.term.rcallee and strip_generics(blk.term.rcallee) == inner]
-        ok = len(its) == 1 and len(ups_) == 1 and len(inn) == 1 and in_cycle(ban, inn[0].idx) and \
-            not any(blk.term.kind == 'call' and any(n.split('::')[-1] in ('skip', 'take', 'step_by', 'rev', 'filter') and 'iter' in n.lower() for n in blk.term.callee_names()) for blk in b.blocks)
+        lossy = any(blk.term.kind == 'call' and any(n.split('::')[-1] in ('skip', 'take', 'step_by', 'rev', 'filter', 'skip_while', 'take_while', 'nth', 'last', 'find', 'find_map', 'any', 'all') and 'iter' in n.lower() for n in blk.term.callee_names()) for blk in b.blocks)
+        ok = len(its) == 1 and len(ups_) == 1 and len(inn) == 1 and in_cycle(ban, inn[0].idx) and not lossy
+        if not ok and not lossy and not its:
+            # the same walk as an iterator chain: `.iter().filter_map(Weak::upgrade).for_each(|cache| cache.<inner>(..))`
+            fm = [blk for blk in b.blocks if blk.term.kind == 'call' and not blk.cleanup and any(n.endswith('Iterator::filter_map') for n in blk.term.callee_names()) and
+                  any(a.kind == 'const' and a.const.get('fn') and strip_generics(a.const.get('rfn') or a.const['fn']).endswith('Weak::upgrade') for a in blk.term.args)]
+            fe = [cb_ for blk_, cb_ in closure_args_of(prog, b, ['std::iter::Iterator::for_each'])]
+            inner_in = [cb_ for cb_ in fe if any(x.term.kind == 'call' and not x.cleanup and x.term.rcallee and strip_generics(x.term.rcallee) == inner for x in cb_.blocks)]
+            ok = len(fm) == 1 and len(fe) == 1 and len(inner_in) == 1
+            if ok and fn == 'remove':
+                cb_ = inner_in[0]
+                icall = [x for x in cb_.blocks if x.term.kind == 'call' and not x.cleanup and x.term.rcallee and strip_generics(x.term.rcallee) == inner][0]
+                q = {x[1].split('.')[0] for x in sources(prog.an(cb_), icall.term.args[1]) if x[0] == 'upvar'}; ty = {x[1].split('.')[0] for x in sources(prog.an(cb_), icall.term.args[2]) if x[0] == 'upvar'}
+                ctx.ob('R16.6', 'registry remove() forwards query and types', q == {'query'} and ty == {'types'}, ctx.where(cb_, icall.term.line), 'query from %s, types from %s' % (q, ty), construct='registry:remove-args')
         ctx.ob('R16.6', 'registry %s() reaches every registered cache that is still alive' % fn, ok, ctx.where(b), '', construct='registry:' + fn)
         if fn == 'remove' and inn:
             q = {x[1] for x in sources(ban, inn[0].term.args[1]) if x[0] == 'arg'}; ty = {x[1] for x in sources(ban, inn[0].term.args[2]) if x[0] == 'arg'}
